@@ -4,6 +4,7 @@ mod ix;
 mod model;
 mod monitors;
 mod props;
+mod refm;
 mod replay;
 mod rt;
 mod runner;
@@ -23,6 +24,9 @@ const DEFAULT_SEED: u64 = 20260924;
 fn out_file() -> std::fs::File {
     // program logs (`msg!`) println natively; keep them away from our report
     unsafe {
+        if std::env::var("MFISIM_LOGS").is_ok() {
+            return std::fs::File::from_raw_fd(libc::dup(1));
+        }
         let saved = libc::dup(1);
         let null = libc::open(b"/dev/null\0".as_ptr() as *const libc::c_char, libc::O_WRONLY);
         libc::dup2(null, 1);
@@ -395,12 +399,67 @@ fn cmd_replay(args: &[String], out: &mut std::fs::File) -> i32 {
         )
         .ok();
     }
+    if args.iter().any(|a| a == "--debug") {
+        debug_last(&rf, out);
+    }
     if vs.iter().any(|v| v.class() == rf.class) {
         writeln!(out, "VIOLATION property={} replay={}", rf.property, path).ok();
         1
     } else {
         writeln!(out, "recorded violation did not occur").ok();
         0
+    }
+}
+
+fn debug_last(rf: &replay::ReplayFile, out: &mut std::fs::File) {
+    // re-execute and dump the reference view of the last transaction
+    let mut sim = sim::Sim::new(vec![]);
+    sim.exec.foreign = rf.foreign.clone();
+    let n = rf.events.len();
+    for (i, e) in rf.events.iter().enumerate() {
+        if i + 1 == n {
+            if let sim::Event::Tx(tx) | sim::Event::ForkTx(tx) = e {
+                let (o, post) = sim.exec.execute(&sim.store, sim.clock, tx);
+                writeln!(out, "last tx {} result {:?}", sim::tx_tag(tx), o.result).ok();
+                let st = post.as_ref().or(o.failed_state.as_ref()).unwrap_or(&sim.store);
+                for ix in &tx.ixs {
+                    writeln!(out, "ix {} accounts:", ix.tag).ok();
+                    for m in &ix.accounts {
+                        writeln!(out, "   {} s={} w={}", m.pubkey, m.is_signer, m.is_writable).ok();
+                    }
+                    if let Some(k) = monitors::ix_user_account(ix) {
+                        if let Some(a) = model::account_of(st, &k) {
+                            writeln!(out, "account {k} flags {:#x}", a.account_flags).ok();
+                            for b in a.lending_account.balances.iter().filter(|b| b.active != 0) {
+                                writeln!(out, "  slot bank {} tag {} a {} l {}", b.bank_pk, b.bank_asset_tag,
+                                    model::q_str(&model::q_w(b.asset_shares)), model::q_str(&model::q_w(b.liability_shares))).ok();
+                                if let Some(bank) = model::bank_of(st, &b.bank_pk) {
+                                    writeln!(out, "     bank: dec {} asv {} lsv {} wa {} / {} wl {} / {} state {:?} tier {:?} oracle {:?} maxage {} maxconf {} cap {} price-> {:?}",
+                                        bank.mint_decimals, model::q_str(&model::q_w(bank.asset_share_value)), model::q_str(&model::q_w(bank.liability_share_value)),
+                                        model::q_str(&model::q_w(bank.config.asset_weight_init)), model::q_str(&model::q_w(bank.config.asset_weight_maint)),
+                                        model::q_str(&model::q_w(bank.config.liability_weight_init)), model::q_str(&model::q_w(bank.config.liability_weight_maint)),
+                                        bank.config.operational_state, bank.config.risk_tier, bank.config.oracle_setup, bank.config.oracle_max_age, bank.config.oracle_max_confidence,
+                                        bank.config.total_asset_value_init_limit,
+                                        refm::read_oracle(st, &bank, sim.clock).map(|v| (model::q_str(&v.spot.price), model::q_str(&v.spot.conf), model::q_str(&v.ema.price), model::q_str(&v.ema.conf)))).ok();
+                                }
+                            }
+                            for req in [refm::Req::Init, refm::Req::Maint, refm::Req::Equity] {
+                                match refm::health(st, &a, req, sim.clock) {
+                                    Ok(h) => { writeln!(out, "  ref {:?}: assets {} liabs {} err {} zeroed {}", req, model::q_str(&h.assets), model::q_str(&h.liabs), model::q_str(&h.err), h.any_zeroed).ok();
+                                        for p in &h.positions { writeln!(out, "      pos bank {} liab {} amount {} value {} price {} w {} zeroed {}", p.bank, p.is_liab, model::q_str(&p.amount), model::q_str(&p.value), model::q_str(&p.price_used), model::q_str(&p.weight), p.zeroed_bad_oracle).ok(); } }
+                                    Err(e) => { writeln!(out, "  ref {:?}: {:?}", req, e).ok(); }
+                                }
+                            }
+                            let hc = a.health_cache;
+                            writeln!(out, "  cache: a {} l {} am {} lm {} ae {} le {} flags {} err {} ierr {} idx {}", model::q_str(&model::q_w(hc.asset_value)), model::q_str(&model::q_w(hc.liability_value)),
+                                model::q_str(&model::q_w(hc.asset_value_maint)), model::q_str(&model::q_w(hc.liability_value_maint)), model::q_str(&model::q_w(hc.asset_value_equity)), model::q_str(&model::q_w(hc.liability_value_equity)), hc.flags, hc.mrgn_err, hc.internal_err, hc.err_index).ok();
+                        }
+                    }
+                }
+                writeln!(out, "clock {:?}", sim.clock).ok();
+            }
+        }
+        sim.apply(e.clone());
     }
 }
 
